@@ -60,7 +60,7 @@ for _n, _b in [('sqrt_nocheck', 'sqrt'), ('log_nocheck', 'log'), ('arcsin_nochec
 SAMPLED = ['ucross', 'twovec01', 'twovec20', 'sep', 'perp', 'proj', 'element_div', 'qdiv', 'matdiv', 'pow',
            'inverse', 'mrecip', 'unit', 'from_rotation']
 
-ENUM_SHAPES = [(), (1,), (2,), (3,), (2, 2), (0,)]
+ENUM_SHAPES = [(), (1,), (2,), (3,), (2, 2), (0,), (1, 2), (2, 1)]
 
 
 def integral(item):
@@ -114,6 +114,9 @@ def pole_cases(rng, ops, name, shapes, limit=None):
             oshapes[0] = cm.bshape(*oshapes) or oshapes[0]
             if pidx == 0:
                 oshapes = [tuple(shape)] * len(classes)
+            elif 1 in shape and rng.random() < 0.7:
+                # the operand broadcasts INTO the target along a length-one axis of the same rank (seeded C02-E)
+                oshapes[0] = tuple(3 if x == 1 else x for x in shape)
         c = c01.gen_case(rng, name, ops, classes, oshapes, deriv=deriv, special=0.15)
         d = c['operands'][pidx]
         if classes[pidx] == 'number':
@@ -122,6 +125,8 @@ def pole_cases(rng, ops, name, shapes, limit=None):
             d['kind'] = kind
         else:
             d['kind'] = kind if classes[pidx] != 'Boolean' else 'bool'
+            if tuple(shape) == () and classes[pidx] == 'Scalar' and kind == 'float' and not deriv and rng.random() < 0.5:
+                d['npscalar'] = True
             d['vals'] = [[(int(x) if kind == 'int' else float(x)) for x in it] for it in vals]
             if classes[pidx] == 'Boolean':
                 d['vals'] = [[bool(it[0])] for it in vals]
